@@ -731,8 +731,7 @@ pub uninterp spec fn exports_view(e: &Exports) -> Map<Seq<char>, Handle>;
 #[verifier::external_body]
 pub fn register_export(e: &mut Exports, name: VString, pair: Handle) -> (r: Result<(), VErr>)
     ensures r is Ok <==> !exports_view(old(e)).contains_key(text_of(&name)),
-            r is Ok ==> exports_view(final(e)) == exports_view(old(e)).insert(text_of(&name), pair),
-            r is Err ==> exports_view(final(e)) == exports_view(old(e))
+            r is Ok ==> exports_view(final(e)) == exports_view(old(e)).insert(text_of(&name), pair)       // proved of the real chain: unit c11_export_chain (on a failure the table is NOT known to be unchanged: update_once inserts first)
 { unimplemented!() }
 pub struct VariableFlags(pub u8);
 pub const READ_ONLY: u8 = 1;
@@ -760,7 +759,7 @@ pub fn export_name(ctx: &mut Ctx, args: &Vec<VString>, exports: &mut Exports) ->
             && exports_view(final(exports)).dom() == exports_view(old(exports)).dom().insert(text_of(&args@[0]))
             && cell_id(&exports_view(final(exports))[text_of(&args@[0])]) == cell_id(&fn_lookup(&old(ctx).frames, text_of(&args@[0]))->Some_0)
             && (forall|k: Seq<char>| exports_view(old(exports)).contains_key(k) ==> exports_view(final(exports))[k] == exports_view(old(exports))[k]),
-        r is Err ==> exports_view(final(exports)) == exports_view(old(exports)),
+        // (a failed `export` ends the run; on that path the table is not claimed to be unchanged -- update_once inserts before it reports the duplicate)
         *final(ctx) == *old(ctx),
 {{
 {render(b, 1)}
@@ -1546,7 +1545,7 @@ impl Handle { #[verifier::external_body] pub fn verif_value(&self) -> (r: Primit
 pub uninterp spec fn exports_view(e: &Exports) -> Map<Seq<char>, Handle>;
 #[verifier::external_body] pub fn register_export(e: &mut Exports, name: VString, pair: Handle) -> (r: Result<(), VErr>)
     ensures r is Ok <==> !exports_view(old(e)).contains_key(text_of(&name)),
-            r is Ok ==> exports_view(final(e)) == exports_view(old(e)).insert(text_of(&name), pair), r is Err ==> exports_view(final(e)) == exports_view(old(e)) { unimplemented!() }
+            r is Ok ==> exports_view(final(e)) == exports_view(old(e)).insert(text_of(&name), pair) { unimplemented!() }       // unit c11_export_chain
 // MScriptFile::replace_export (through Ctx::register_export_replacing): the registration under that name, old or not, is this one; fails only when
 // the executing file is gone (`could not upgrade reference to file`)
 pub uninterp spec fn registration_possible(e: &Exports) -> bool;
